@@ -8,6 +8,11 @@ import (
 	"github.com/influxdata/influxql"
 )
 
+// replayers: op name -> re-evaluation of the property on the recorded input
+var replayers = map[string]func(o *out, rp map[string]interface{}){}
+
+func rpStr(rp map[string]interface{}, k string) string { s, _ := rp[k].(string); return s }
+
 // runReplay re-runs one recorded failing input against the implementation.
 // Exit 1 if the failure reproduces, 0 otherwise.
 func runReplay(prop, file string) int {
@@ -17,6 +22,18 @@ func runReplay(prop, file string) int {
 	must(json.Unmarshal(data, &rp))
 	op, _ := rp["op"].(string)
 	text, _ := rp["text"].(string)
+	if fn, ok := replayers[op]; ok {
+		o := newOut(os.TempDir() + "/verif-replay")
+		fn(o, rp)
+		o.finish()
+		if o.nfail > 0 {
+			data, _ := os.ReadFile(os.TempDir() + "/verif-replay/direct.txt")
+			fmt.Printf("still violates the property:\n%s", data)
+			return 1
+		}
+		fmt.Println("the recorded input no longer violates the property")
+		return 0
+	}
 	switch op {
 	case "parse_expr":
 		e, err := influxql.ParseExpr(text)
